@@ -105,7 +105,7 @@ class C14(Property):
                     it['gate'] = False
                     it['flavour'] = rng.choice(['undeclared', 'missing'])
             yield {'kind': 'resume', 'items': items, 'regs': P.gen_regs(rng) or [['type', [rng.choice(P.TYPES)], 0]],
-                   'overridden': rng.random() < 0.5, 'validate': True}
+                   'overridden': rng.random() < 0.5, 'validate': True, 'drain': rng.random() < 0.5}
         for _ in range(n):
             items = P.gen_items(rng, rng.randint(0, 14))
             regs = P.gen_regs(rng)
@@ -134,7 +134,7 @@ class C14(Property):
             return {'outcome': outcome, 'rows': out.decode('utf-8').split('\n')[:-1]}
         if case.get('kind') == 'resume':
             data, ends = P.build_document(case['items'])
-            return P.run_parser_resilient(data, ends, case['regs'], case['overridden'], case['validate'])
+            return P.run_parser_resilient(data, ends, case['regs'], case['overridden'], case['validate'], drain=case.get('drain', False))
         if case.get('kind') == 'reuse':
             datas = [P.build_document(items)[0] for items in case['docs']]
             return {'docs': P.run_parser_reuse(datas, case['regs'], case['overridden'], case['validate'], case.get('late_regs'))}
